@@ -420,7 +420,8 @@ def _interp_gen(g):
             # nested below another pattern the step values must stay exact (dyadic) floats: inexact quotients must not flow
             # into discontinuous operators (floor division, comparisons, equality): step counts are powers of two there
             return r.choice([1, 2, 2, 4, 4, 8, 0, r.choice([0, -1, 2.5, 16])])
-        return r.choice([1, 2, 2, 3, 4, 4, 5, 8, 0, r.choice([0, -1, 2.5, 3.0, 16])])
+        # (also step counts that are computed floats a few ulps beside a whole number: 0.3 / 0.1 = 2.9999999999999996)
+        return r.choice([1, 2, 2, 3, 4, 4, 5, 8, 0, r.choice([0, -1, 2.5, 3.0, 16]), r.choice([0.3 / 0.1, 0.7 / 0.1, 0.6 / 0.2, 1.2 / 0.4, 4.000000000000001])])
     steps = param(g, steps_value, p_pattern=0.5)
     # `while vsteps == 0` never exits on an endless input when every later step count is 0: excluded
     if steps[0] == "lit":
@@ -437,7 +438,9 @@ def _interp_ref(e, toks, n):
     ss, sended, sraised = kid_values(e[4][1], n + 2)
     if vraised or sraised or any(not _isnum(x) for x in vs) or any(not (_isnum(s) and s >= 0) for s in ss) or not vs:
         return None
-    ss = [int(s) for s in ss]
+    # the number of steps of a segment is the given count to the nearest whole number when it is within 1e-8 of one
+    # (a computed 0.3 / 0.1 is three steps), truncated otherwise (2.5 -> 2): int(round(steps, 8))
+    ss = [int(round(s, 8)) for s in ss]
     want, cur, vi, si = [vs[0]], vs[0], 1, 0
     while len(want) < n:
         if si >= len(ss):
